@@ -76,7 +76,7 @@ func buildCallable(in *ukit.Spec, rec *recorder, inits *int) *schema.CallableSch
 			rec.signalInput, rec.signalData = v, d
 		})
 		return schema.NewCallableSchema(schema.NewCallableStepWithSignals[*stepData, ukit.SA]("s", inScope, outputs,
-			map[string]schema.CallableSignal{"sig": sig}, nil, nil, initializer,
+			map[string]schema.CallableSignal{"sig": sig, "sigv": foreignSignal(sigScope, rec)}, nil, nil, initializer,
 			func(_ context.Context, d *stepData, v ukit.SA) (string, any) {
 				rec.stepCalls++
 				rec.stepInput, rec.stepData = v, d
@@ -88,12 +88,21 @@ func buildCallable(in *ukit.Spec, rec *recorder, inits *int) *schema.CallableSch
 		rec.signalInput, rec.signalData = v, d
 	})
 	return schema.NewCallableSchema(schema.NewCallableStepWithSignals[*stepData, map[string]any]("s", inScope, outputs,
-		map[string]schema.CallableSignal{"sig": sig}, nil, nil, initializer,
+		map[string]schema.CallableSignal{"sig": sig, "sigv": foreignSignal(sigScope, rec)}, nil, nil, initializer,
 		func(_ context.Context, d *stepData, v map[string]any) (string, any) {
 			rec.stepCalls++
 			rec.stepInput, rec.stepData = v, d
 			return respond()
 		}))
+}
+
+// foreignSignal is a signal whose handler is declared for another step data type (the value type) than the step
+// creates (a pointer): the run's step data cannot be handed to it, so it must not run at all.
+func foreignSignal(sigScope *schema.ScopeSchema, rec *recorder) schema.CallableSignal {
+	return schema.NewCallableSignal[stepData, map[string]any]("sigv", sigScope, nil, func(_ context.Context, d stepData, v map[string]any) {
+		rec.signalCalls++
+		rec.signalInput, rec.signalData = v, d
+	})
 }
 
 func inputScopes() []*ukit.Spec {
@@ -200,6 +209,7 @@ func partU(tier string, rep *lib.Report) (int, map[string]any) {
 			{"s", "sig", "not a map", "baddata"},
 			{"s", "nosuch", map[string]any{"n": int64(3)}, "unknownsignal"},
 			{"nope", "sig", map[string]any{"n": int64(3)}, "unknownstep"},
+			{"s", "sigv", map[string]any{"n": int64(3)}, "foreignstepdata"},
 		} {
 			evals++
 			rec := &recorder{mode: "conforming"}
@@ -220,6 +230,15 @@ func partU(tier string, rep *lib.Report) (int, map[string]any) {
 			case "ok":
 				if err != nil || rec.signalCalls != 1 || inits != 1 {
 					fail("valid signal call does not invoke the handler exactly once with fresh step data", fmt.Sprintf("err=%v calls=%d initializer runs=%d", err, rec.signalCalls, inits))
+				} else if d, ok := rec.signalData.(*stepData); !ok || d == nil || d.id != 1 {
+					fail("signal handler saw other step data than its run's", fmt.Sprintf("handler got %#v, the initializer returned &stepData{id:1}", rec.signalData))
+				}
+			case "foreignstepdata":
+				// the handler cannot take the run's step data: whatever it is given is not the run's, so it must not run
+				if rec.signalCalls != 0 {
+					fail("signal handler saw other step data than its run's", fmt.Sprintf("handler declared for another step data type was run with %#v; err=%v", rec.signalData, err))
+				} else if err == nil {
+					fail("signal that cannot be delivered is not an error", "CallSignal returned nil although the handler cannot take the run's step data")
 				}
 			case "baddata":
 				if err == nil || !errors.As(err, &inv) || rec.signalCalls != 0 {
@@ -265,7 +284,7 @@ func main() {
 			}
 			return 120 * time.Second
 		},
-		Rule: "part U: one callable step over each of 6 input scopes (map-based with defaults / presence rules, references, recursive references, one-of over references, struct-mapped) x every raw input of V(scope) x 5 handler behaviours (conforming, non-conforming data, wrongly typed data, undeclared output id, declared error output) x {existing, unknown} step id, plus 5 signal calls (valid, out-of-range data, wrongly typed data, unknown signal id, unknown step id) per scope, compared with the reference interpreter (handler invocation count and argument, output id and serialized data, error types). Part S: CallStep / CallSignal for run ids r1, r2 issued by 2-4 (thorough 5) threads; every interleaving within the delay bound; initializer count, identity of the step data seen by step and signal handlers, and happens-before races on schema/ (sync shim + access events) are checked",
+		Rule: "part U: one callable step over each of 6 input scopes (map-based with defaults / presence rules, references, recursive references, one-of over references, struct-mapped) x every raw input of V(scope) x 5 handler behaviours (conforming, non-conforming data, wrongly typed data, undeclared output id, declared error output) x {existing, unknown} step id, plus 6 signal calls (valid, out-of-range data, wrongly typed data, unknown signal id, unknown step id, a handler declared for another step data type) per scope, compared with the reference interpreter (handler invocation count and argument, output id and serialized data, error types). Part S: CallStep / CallSignal for run ids r1, r2 issued by 2-4 (thorough 5) threads; every interleaving within the delay bound; initializer count, identity of the step data seen by step and signal handlers, and happens-before races on schema/ (sync shim + access events) are checked",
 		Assumptions: []string{
 			"the error type for output data that violates the output schema is not pinned down by the property (any error is accepted)",
 			"scheduling points at the mutex operations of schema/step.go; access events as in C13",
